@@ -64,7 +64,12 @@ pub const FAMILIES: &[(&[M], &[M])] = &[
 pub fn gen_c15(base_seed: u64, batch: &str, run: u64, rng: &mut Rng) -> Scenario {
     let race = batch == "helper-race";
     let fam = if race { FAMILIES[0] } else { *rng.pick(FAMILIES) };
-    let (provided, required) = fam;
+    // sometimes two receiver kinds on one instance: the lazily created helper is per instance, not
+    // per trait
+    let fam2 = if !race && rng.chance(1, 3) { Some(*rng.pick(FAMILIES)) } else { None };
+    let provided_v: Vec<M> = fam.0.iter().chain(fam2.iter().flat_map(|f| f.0.iter())).copied().collect::<std::collections::BTreeSet<_>>().into_iter().collect();
+    let required_v: Vec<M> = fam.1.iter().chain(fam2.iter().flat_map(|f| f.1.iter())).copied().collect::<std::collections::BTreeSet<_>>().into_iter().collect();
+    let (provided, required): (&[M], &[M]) = (&provided_v, &required_v);
     let mut co = CfgOpts::default();
     co.pool = required.to_vec();
     if rng.chance(1, 2) {
@@ -97,8 +102,10 @@ pub fn gen_c15(base_seed: u64, batch: &str, run: u64, rng: &mut Rng) -> Scenario
     for (m, prog) in cfg.default_progs.iter_mut() {
         prog.calls.clear();
         if provided.contains(m) {
+            // a default body can only call the required methods of its own trait
+            let own: Vec<M> = FAMILIES.iter().filter(|f| f.0.contains(m)).flat_map(|f| f.1.iter().copied()).collect();
             for _ in 0..rng.usize(4) {
-                prog.calls.push((*rng.pick(required), rng.below(4) as u8, rng.below(4) as u8));
+                prog.calls.push((*rng.pick(&own), rng.below(4) as u8, rng.below(4) as u8));
             }
         }
     }
@@ -106,7 +113,6 @@ pub fn gen_c15(base_seed: u64, batch: &str, run: u64, rng: &mut Rng) -> Scenario
         prog.calls.clear();
     }
     let st = Steer::new(&cfg);
-    let consuming = matches!(provided[0].info().recv, Recv::Val | Recv::Rc | Recv::Arc);
     let mut threads: Vec<Vec<Op>> = vec![vec![]];
     if race {
         // two or three threads reach the lazily created helper of one shared instance at once
@@ -141,6 +147,7 @@ pub fn gen_c15(base_seed: u64, batch: &str, run: u64, rng: &mut Rng) -> Scenario
             } else {
                 None
             };
+            let consuming = matches!(m.info().recv, Recv::Val | Recv::Rc | Recv::Arc);
             if provided.contains(&m) && consuming && !(keep && m.info().recv != Recv::Val) {
                 // the instance does not come back: only as the last operation
                 if i + 1 < n && rng.chance(2, 3) {
@@ -346,7 +353,7 @@ pub fn check_c15(scn: &Scenario) -> Checked {
 // ---------------------------------------------------------------------------------------------
 // C16
 
-const C16_POOL: &[M] = &[M::A0, M::A1, M::B1, M::E0, M::S0, M::S1, M::S2, M::Gm];
+const C16_POOL: &[M] = &[M::A0, M::A1, M::B1, M::E0, M::S0, M::S1, M::S2, M::Gm, M::Vu, M::RcU];
 
 pub fn gen_c16(base_seed: u64, batch: &str, run: u64, rng: &mut Rng) -> Scenario {
     if batch == "executor" {
@@ -377,6 +384,7 @@ pub fn gen_c16(base_seed: u64, batch: &str, run: u64, rng: &mut Rng) -> Scenario
     }
     let st = Steer::new(&cfg);
     let mut ops = vec![];
+    let mut consumed: Option<Op> = None;
     for _ in 0..rng.range(1, 8) {
         let (m, x, y) = if !st.flat.patterns.is_empty() && rng.chance(1, 2) {
             let p = rng.pick(&st.flat.patterns).clone();
@@ -387,9 +395,17 @@ pub fn gen_c16(base_seed: u64, batch: &str, run: u64, rng: &mut Rng) -> Scenario
         };
         let y = if m.info().two_args { y } else { 0 };
         let fault = if batch == "faults" && rng.chance(1, 4) { Some(Fault::ProgPanic { nth: rng.below(2) as u8, pos: rng.below(3) as u8 }) } else { None };
+        if matches!(m.info().recv, Recv::Val | Recv::Rc) {
+            // consumes the instance: only as the last operation (the real function owns the mock)
+            consumed = Some(Op::Call { slot: 0, m, x, y, catch: true, fault: None, keep: false });
+            continue;
+        }
         ops.push(Op::Call { slot: 0, m, x, y, catch: true, fault, keep: false });
     }
-    ops.push(Op::Verify { slot: 0 });
+    match consumed {
+        Some(op) => ops.push(op),
+        None => ops.push(Op::Verify { slot: 0 }),
+    }
     Scenario {
         prop: "C16".into(),
         base_seed,
@@ -530,7 +546,8 @@ pub fn check_c16(scn: &Scenario) -> Checked {
         if p.x != c.x || (info.two_args && p.y != c.y) {
             violations.push(v("C16", "arguments-in-order", key.clone(), format!("called with ({},{}) but the real function received ({},{})", c.x, c.y, p.x, p.y)));
         }
-        if p.finished && c.outcome != Some(Outcome::Value(VAL_PROG | p.inv)) {
+        let consuming = matches!(info.recv, Recv::Val | Recv::Rc);
+        if p.finished && c.outcome != Some(Outcome::Value(VAL_PROG | p.inv)) && !(consuming && matches!(c.outcome, Some(Outcome::MockPanic(_)))) {
             violations.push(v("C16", "result-returned-unchanged", key.clone(), format!("the real function returned {:#x}, the caller got {:?}", VAL_PROG | p.inv, c.outcome)));
         }
         probe(&mut stats, "call_resolved_to_real_function");
@@ -543,7 +560,7 @@ pub fn check_c16(scn: &Scenario) -> Checked {
         // twin candidates: fall-through calls (no pattern is counted for them, so calling the real
         // function directly leaves the twin in exactly the same state)
         let untouched = matches!((&c.pre, &c.post), (Some(a), Some(b)) if a.same_counts(b));
-        if c.parent.is_none() && untouched {
+        if c.parent.is_none() && untouched && !consuming {
             resolved.push(c);
         }
     }
@@ -725,7 +742,13 @@ pub fn gen_c18(base_seed: u64, batch: &str, run: u64, rng: &mut Rng) -> Scenario
     co.max_patterns = 3;
     co.ordered_pct = 35;
     co.nested_calls = batch != "reroute"; // nested calls are made on the instance the user code is given
-    let cfg = gen_config(rng, &co);
+    let mut cfg = gen_config(rng, &co);
+    // a method answered with make_ref(self.clone()): a clone of the mock parked in the value chain of
+    // whichever instance the call went through
+    let lend_clone = rng.chance(1, 4);
+    if lend_clone {
+        cfg.specials = vec![Special::LendClone];
+    }
     let st = Steer::new(&cfg);
     let mut ops = vec![];
     let mut st2 = st.clone();
@@ -751,6 +774,9 @@ pub fn gen_c18(base_seed: u64, batch: &str, run: u64, rng: &mut Rng) -> Scenario
         };
         st2.apply(m, x, y);
         ops.push(Op::Call { slot: 0, m, x, y, catch: true, fault: None, keep: false });
+        if lend_clone && rng.chance(1, 4) {
+            ops.push(Op::Call { slot: 0, m: M::LendClone, x: 0, y: 0, catch: true, fault: None, keep: false });
+        }
     }
     ops.push(match rng.weighted(&[50, 35, 15]) {
         0 => Op::Verify { slot: 0 },
@@ -1071,4 +1097,96 @@ fn has_nested(cfg: &Config) -> bool {
     cfg.clauses.iter().any(|c| c.patterns.iter().any(|p| p.segs.iter().any(|s| matches!(&s.resp, Resp::Answers(pr) | Resp::AnswersArc(pr) if !pr.calls.is_empty()))))
         || cfg.real_progs.iter().any(|(_, p)| !p.calls.is_empty())
         || cfg.default_progs.iter().any(|(_, p)| !p.calls.is_empty())
+}
+
+// ---------------------------------------------------------------------------------------------
+// C15, supertraits: a default body that formats `self` through Debug and Display. Both are mirrored
+// traits; inside the delegation helper each must reach the same mock through its own entry point.
+
+#[cfg(feature = "stdworld")]
+pub fn check_c15_fmt(scn: &Scenario) -> Checked {
+    use crate::corpus::FmtT;
+    use std::sync::atomic::{AtomicU32, Ordering};
+    use std::sync::Arc;
+    use unimock::mock::core::fmt::{DebugMock, DisplayMock};
+    use unimock::verif::DynClause;
+    use unimock::*;
+
+    let mut rng = Rng::new(scn.knob("fmt_seed").unwrap_or(1) as u64);
+    let ordered = rng.chance(1, 2);
+    let partial = rng.chance(1, 2);
+    let via_clone = rng.chance(1, 2);
+    let n = rng.range(1, 3);
+    let expect_more = rng.chance(1, 4); // one more Debug expected than will be made: verdict must fail
+    let xs: Vec<u8> = (0..n).map(|_| rng.below(4) as u8).collect();
+    let build = |counter: Arc<AtomicU32>| -> Unimock {
+        let mut clauses: Vec<DynClause> = vec![];
+        let dbg = {
+            let c = counter.clone();
+            Arc::new(move |_: &Unimock, f: &mut std::fmt::Formatter<'_>| write!(f, "D{}", c.fetch_add(1, Ordering::SeqCst)))
+        };
+        let disp = {
+            let c = counter.clone();
+            Arc::new(move |_: &Unimock, f: &mut std::fmt::Formatter<'_>| write!(f, "S{}", c.fetch_add(1, Ordering::SeqCst)))
+        };
+        if ordered {
+            for _ in 0..n {
+                clauses.push(DynClause::new(DebugMock::fmt.next_call(matching!(_)).answers_arc(dbg.clone())));
+                clauses.push(DynClause::new(DisplayMock::fmt.next_call(matching!(_)).answers_arc(disp.clone())));
+            }
+            if expect_more {
+                clauses.push(DynClause::new(DebugMock::fmt.next_call(matching!(_)).answers_arc(dbg.clone())));
+            }
+        } else {
+            clauses.push(DynClause::new(DebugMock::fmt.each_call(matching!(_)).answers_arc(dbg.clone()).n_times(n + expect_more as usize)));
+            clauses.push(DynClause::new(DisplayMock::fmt.each_call(matching!(_)).answers_arc(disp.clone()).at_least_times(1)));
+        }
+        if partial {
+            Unimock::new_partial(clauses)
+        } else {
+            Unimock::new(clauses)
+        }
+    };
+    let run_side = |delegated: bool| -> (Vec<String>, String) {
+        let u = build(Arc::new(AtomicU32::new(0)));
+        let mut outs = vec![];
+        {
+            let c = if via_clone { Some(u.clone()) } else { None };
+            let target: &Unimock = c.as_ref().unwrap_or(&u);
+            for x in &xs {
+                let r = std::panic::catch_unwind(std::panic::AssertUnwindSafe(|| if delegated { target.show(*x) } else { format!("{x}:{:?}|{}", target, target) }));
+                outs.push(match r {
+                    Ok(s) => s,
+                    Err(p) => format!("panic: {:?}", classify_panic(p.as_ref())),
+                });
+            }
+        }
+        let verdict = match std::panic::catch_unwind(std::panic::AssertUnwindSafe(move || u.verify())) {
+            Ok(()) => "pass".to_string(),
+            Err(p) => format!("fail: {:?}", classify_panic(p.as_ref())),
+        };
+        (outs, verdict)
+    };
+    let a = run_side(true);
+    let b = run_side(false);
+    let mut stats = RunStats::default();
+    stats.ops = xs.len() as u64 * 2;
+    stats.calls = xs.len() as u64 * 4;
+    stats.extra_runs = 1;
+    stats.nontrivial = true;
+    let mut sig = crate::rng::Sig::new();
+    sig.add_str(&format!("{ordered}{partial}{via_clone}{n}{expect_more}{xs:?}"));
+    stats.shape = sig.0;
+    stats.sample = Some(format!("FmtT::show (default body formatting self with {{:?}} and {{}}): ordered={ordered} partial={partial} via_clone={via_clone} args={xs:?} -> {:?}, verdict {}", a.0, a.1));
+    *stats.probes.entry("default_body_used_debug_and_display_supertraits".into()).or_default() += 1;
+    let mut violations = vec![];
+    if a != b {
+        violations.push(v(
+            "C15",
+            "supertrait-calls-evaluated-by-the-same-mock",
+            "FmtT::show",
+            format!("show() through the default body gave {:?} / {}; formatting the mock directly on a twin gives {:?} / {}", a.0, a.1, b.0, b.1),
+        ));
+    }
+    Checked { violations, stats, harness_error: None }
 }
